@@ -571,7 +571,10 @@ def slots_of(h, m):
         if isinstance(m, stream.SyncFIFO):
             if m.depth == 0: return []
             if m.depth == 1: return slots_of(h, m.buf) if hasattr(m, "buf") else None
-            f = m.fifo; lf = locals_of(f); produce, consume, storage = lf.get("produce"), lf.get("consume"), lf.get("storage")
+            f = m.fifo; front = []
+            if hasattr(f, "fifo") and hasattr(f, "readable"):          # buffered: output register stage (readable flag + dout register) in front of the inner FIFO
+                front = [(b(h.v(f.readable)), tok(h, m.source))]; f = f.fifo
+            lf = locals_of(f); produce, consume, storage = lf.get("produce"), lf.get("consume"), lf.get("storage")
             mem = h.ts.mems[storage]; depth = m.depth
             def word(i):
                 idx = zx(h.v(consume), 8) + K(i, 8)
@@ -586,7 +589,7 @@ def slots_of(h, m):
                 return cat(z3.Extract(off, off, w), z3.Extract(off + 1, off + 1, w), *pay, *par)
             h.hint(f"fifo{id(m)%997}.ptr", z3.URem(zx(h.v(consume), 8) + zx(h.v(f.level), 8), K(depth, 8)) == zx(h.v(produce), 8))
             h.hint(f"fifo{id(m)%997}.c", ult(h.v(consume), depth)); h.hint(f"fifo{id(m)%997}.p", ult(h.v(produce), depth)); h.hint(f"fifo{id(m)%997}.l", ule(h.v(f.level), depth))
-            return [(ugt(h.v(f.level), i), unpack(word(i))) for i in range(depth)]
+            return front + [(ugt(h.v(f.level), i), unpack(word(i))) for i in range(depth)]
     except (AttributeError, KeyError, TypeError):
         return None
     return None
